@@ -15,6 +15,12 @@ Finger(r) ==
              \cup (IF r.alias[2] # AliasC(w) \/ r.alias[4] # AliasC(w) THEN {<<"C12", "generated-method-not-using-converter-setting", "skipCopySameType-helper", r.id>>} ELSE {})
              \cup (IF (r.alias[1] /\ ~AliasI(w, w.p1)) \/ (r.alias[3] /\ ~AliasI(w, w.p2)) \/ ((r.alias[2] \/ r.alias[4]) /\ ~AliasC(w))
                    THEN {<<"C04", "result-shares-memory-with-source", "skipCopySameType-not-in-effect", r.id>>} ELSE {}))
+  ELSE IF w.kind = "enumoff" THEN
+       (IF r.gen # "ok" THEN {<<"C12", "valid-rejected", "enumoff-witness", r.id>>}
+        ELSE IF ~r.compiles THEN {<<"C01", "does-not-compile", "witness", r.id>>}
+        ELSE (IF r.byname[1] # ByName(w, w.p1) THEN {<<"C12", "precedence", "enum-effect-M1", r.id>>} ELSE {})
+             \cup (IF r.byname[2] # ByName(w, w.p2)
+                   THEN {<<"C12", "sibling", IF DevHelperOfSibling(w) /\ r.byname[2] THEN "generated-helper-of-sibling-used-despite-enum-no" ELSE "enum-effect-M2", r.id>>} ELSE {}))
   ELSE IF w.kind = "ctxregex" THEN
        (IF r.gen # "ok" /\ RegexOK(w) THEN {<<"C12", "valid-rejected", "ctxregex-witness", r.id>>}
         ELSE IF r.gen = "ok" /\ ~RegexOK(w) THEN {<<"C12", "precedence", "ctxregex-not-in-effect", r.id>>}
